@@ -15,12 +15,19 @@ RULE = ("metamorphic on evaluate(): x vs (injectively relabelled, re-typed) x. R
         "determined; non-trivial = >= 2 instances on a side and a relabelling that changes the label order or the dtype")
 ASSUMPTIONS = ["numpy integer array arithmetic is exact below 2^63 (modelled as unbounded integers); the 2^24-entry lookup table fits in memory"]
 TRUSTED = ["numpy C code (modelled, not verified)"]
-LEVEL_TEXT = ("Props/C09.v: for all injective label maps fixing 0 the set-level quantities the pipeline is built from are invariant: the selected masks "
-              "(hence IoU/Dice/RVD), the overlapping pairs, the candidate scores, and the relational matching specification (a matching is valid "
-              "iff its renamed image is valid for the renamed candidates), so with uniqueness (C03) the matched pairs correspond; the pair code "
-              "is injective and fits 64 bits for labels < 2^24 (GenEq_MatcherLoop). The assembled end-to-end equality of two pipeline runs is "
-              "decided by metamorphic correspondence on the implementation (stated as partial in Coq).")
-LEVEL_NOTE = "Coq part: invariance of the building blocks + transport of the matching specification; composition across the fresh-label numbering is by correspondence. Trusted: Coq kernel, translator, harness."
+LEVEL_TEXT = ("Props/C09.v, whole pipeline: C09_matched_input_pipeline_invariant (matched input, one renaming of both arrays, no tie hypothesis) and "
+              "C09_unmatched_input_pipeline_invariant (unmatched input, threshold matcher one-to-one or many-to-one, independent renamings of "
+              "reference and prediction labels, matching determined = competing candidates meeting the threshold have distinct scores) state that "
+              "the two runs return equivalent result objects: same counts, precision/recall/rq, every per-instance list permuted, averages, "
+              "variances and pq equal as rationals -- for ALL arrays and all maps injective on the labels that occur (any magnitude: integers are "
+              "unbounded in the model). Proved through: invariance of the selected masks (IoU/Dice/RVD), of the overlapping pairs and candidate "
+              "scores, transport and uniqueness of the matching specification (C03), and the fact that the two relabelled arrays (fresh labels "
+              "numbered in different orders) again differ by a locally injective renaming. Fixed-width effects (dtype, pair code, lookup table) "
+              "are outside the model: the pair code is injective and fits 64 bits for labels < 2^24 (GenEq_MatcherLoop), the rest is decided by "
+              "metamorphic correspondence on the implementation over dtypes and label magnitudes.")
+LEVEL_NOTE = ("Partial in Coq for: the merge matcher and semantic input (connected-component numbering) -- building blocks proved, composition by "
+              "correspondence; geometric metric values (ASSD/clDice) enter as parameters required to agree on corresponding instances (their "
+              "label-independence is C07). Trusted: Coq kernel, translator, harness.")
 TECHNIQUE = "machine-checked proof in Rocq (Coq) (invariance lemmas, partial composition) + metamorphic correspondence on the implementation"
 
 SPECIAL = [255, 256, 65535, 65536, 65537, 2 ** 24 - 1, 70000, 128, 129]
